@@ -3,6 +3,7 @@ package main
 import (
 	"fmt"
 	"os"
+	"sort"
 	"go/constant"
 	"go/token"
 	"go/types"
@@ -287,7 +288,13 @@ func (fr *Frame) callFunc(b *ssa.BasicBlock, f *ssa.Function, c *ssa.CallCommon,
 	}
 	if strings.HasPrefix(name, "verif_arrayof[") {
 		// the backing array of a slice as an object (for modifies clauses)
-		return &Val{T: f.Signature.Results().At(0).Type(), S: fmt.Sprintf("(g_mkiface (_ bv1 32) (g_sarr %s))", args[0].S)}
+		// (a slice without capacity has no cells: no object)
+		sl := args[0].S
+		tag := bvConst(1, 32)
+		if st, ok := args[0].T.Underlying().(*types.Slice); ok {
+			tag = bvConst(uint64(eng.pseudoTag("array:"+typeKey(st.Elem()))), 32)
+		}
+		return &Val{T: f.Signature.Results().At(0).Type(), S: vc.def("g_Iface", "arrayof", fmt.Sprintf("(ite (= (g_scap %s) (_ bv0 64)) g_niliface (g_mkiface %s (g_sarr %s)))", sl, tag, sl))}
 	}
 	if strings.HasPrefix(name, "verif_sameelems[") {
 		// the two slices hold the same sequence of elements
@@ -359,7 +366,10 @@ func (fr *Frame) callFunc(b *ssa.BasicBlock, f *ssa.Function, c *ssa.CallCommon,
 	}
 	ct := eng.contractOf(f)
 	hasBody := len(f.Blocks) > 0 && eng.loopInfo(f).rpo != nil
-	if fr.pure && hasBody && strings.HasPrefix(name, "spec_") && inModule(f) && !fr.onStack(f) && !noSpecDefs {
+	if fr.pure && hasBody && (strings.HasPrefix(name, "spec_") || strings.HasPrefix(name, "Spec_")) && inModule(f) && !fr.onStack(f) && !noSpecDefs &&
+		(vc.quant > 0 || eng.specUsesQuant(f, 0)) {
+		// (a quantifier-free specification function called outside a quantifier is
+		// expanded in place: its reads then get the per-read typing facts)
 		if v := fr.specDefCall(f, c, args, st); v != nil {
 			return v
 		}
@@ -368,6 +378,13 @@ func (fr *Frame) callFunc(b *ssa.BasicBlock, f *ssa.Function, c *ssa.CallCommon,
 		// a function with loops called inside a specification: its contract
 		// defines the result (the contract is verified against the body separately)
 		vc.usedContracts[ct.FullKey()] = true
+		// as a shared definition where quantifiers are involved (equal calls then
+		// are equal terms), otherwise expanded in place
+		if !noSpecDefs && (vc.quant > 0 || eng.specUsesQuant(ct.Def.Fn, 0)) {
+			if v := fr.specDefCall(ct.Def.Fn, c, args, st); v != nil {
+				return v
+			}
+		}
 		v := vc.evalClauseVal(ct.Def, args, st, fr)
 		return &v
 	}
@@ -586,7 +603,8 @@ func (fr *Frame) applyContract(b *ssa.BasicBlock, ct *Contract, c *ssa.CallCommo
 		framed := len(ct.Modifies) > 0
 		for _, cl := range ct.Modifies {
 			v := vc.evalClauseVal(cl, args, st, fr)
-			exempt = append(exempt, app("g_iref", v.S))
+			// (reference, type tags): the entry exempts objects of its own type only
+			exempt = append(exempt, app("g_iref", v.S)+"\x01"+vc.eng.clauseTags(cl, app("g_itag", v.S)))
 		}
 		if ct.autoFrame() {
 			// default frame of sweep contracts: the objects passed by pointer (and fresh ones)
@@ -666,6 +684,14 @@ func (fr *Frame) applyContract(b *ssa.BasicBlock, ct *Contract, c *ssa.CallCommo
 		}
 		vc.assume(sImp(reach, g))
 	}
+	if ct.Def != nil && ct.Def.Fn != nil && len(res) == 1 && !noSpecDefs && !fr.pure && vc.eng.specUsesQuant(ct.Def.Fn, 0) {
+		// the same definition that stands for a call of this function inside a
+		// specification: the result of the real call is that term
+		pf := &Frame{vc: vc, fn: fr.fn, pure: true, parent: fr, vals: map[ssa.Value]Val{}}
+		if v := pf.specDefCall(ct.Def.Fn, c, args, st); v != nil {
+			vc.assume(sImp(reach, sEq(res[0].S, v.S)))
+		}
+	}
 	return packResults(c, res)
 }
 
@@ -692,7 +718,7 @@ func (fr *Frame) frameCall(b *ssa.BasicBlock, m *ModSet, exempt []string, st *St
 		return
 	}
 	for i, e := range exempt {
-		g := vc.frameAllowed(r, e)
+		g := vc.frameAllowed(r, exemptRef(e))
 		vc.addObl("frame", root, fmt.Sprintf("frame:%s:call:%s#%d:%d", root, callee, ord, i), reach, g, pos)
 	}
 }
@@ -703,9 +729,10 @@ func (vc *VC) frameAllowed(r *Frame, ref string) string {
 	if vc.freshRefs[ref] {
 		return "true"
 	}
-	alts := []string{app("bvuge", ref, vc.frame.next0)}
+	// nil is no object: a callee that lists a nil pointer in its frame writes nothing through it
+	alts := []string{app("bvuge", ref, vc.frame.next0), sEq(ref, bvConst(0, 64))}
 	for _, e := range vc.frame.refs {
-		alts = append(alts, sEq(ref, e))
+		alts = append(alts, sEq(ref, exemptRef(e)))
 	}
 	return sOr(alts...)
 }
@@ -1351,7 +1378,7 @@ func (fr *Frame) specDefCall(f *ssa.Function, c *ssa.CallCommon, args []Val, st 
 	}
 	sd.keys = sortedKeys(tr.keys)
 	sd.usesNow = tr.usesNow
-	name := vc.name("spec_" + strings.TrimPrefix(f.Name(), "spec_"))
+	name := vc.name("spec_" + strings.TrimPrefix(strings.TrimPrefix(f.Name(), "spec_"), "Spec_"))
 	if len(plist) == 0 {
 		vc.emit(fmt.Sprintf("(define-fun %s () %s %s)", name, vc.sorts().sortOf(rt), res[0].S))
 	} else if vc.specHasQuant(res[0].S) {
@@ -1435,4 +1462,122 @@ func usesAny(term string, vs []Val) bool {
 		}
 	}
 	return false
+}
+
+// clauseTags: the type tags the interface value returned by a modifies clause can
+// have, read off the clause's code (conversions of typed pointers, verif_arrayof,
+// nil, and specification functions built from these), as "#t1,t2,..."; when
+// they cannot be determined, the symbolic tag term is returned instead.
+func (eng *Engine) clauseTags(cl *Clause, symbolic string) string {
+	if cl == nil || cl.Fn == nil {
+		return symbolic
+	}
+	tags := map[int]bool{}
+	if !eng.staticTags(cl.Fn, 0, tags) {
+		return symbolic
+	}
+	var xs []string
+	for t := range tags {
+		xs = append(xs, fmt.Sprint(t))
+	}
+	sort.Strings(xs)
+	return "#" + strings.Join(xs, ",")
+}
+
+func (eng *Engine) staticTags(fn *ssa.Function, depth int, tags map[int]bool) bool {
+	if depth > 4 || len(fn.Blocks) == 0 {
+		return false
+	}
+	var value func(v ssa.Value, d int) bool
+	value = func(v ssa.Value, d int) bool {
+		if d > 6 {
+			return false
+		}
+		switch x := v.(type) {
+		case *ssa.MakeInterface:
+			tags[eng.typeTag(x.X.Type())] = true
+			return true
+		case *ssa.Const:
+			return x.IsNil()
+		case *ssa.Phi:
+			for _, e := range x.Edges {
+				if !value(e, d+1) {
+					return false
+				}
+			}
+			return true
+		case *ssa.Call:
+			callee, ok := x.Call.Value.(*ssa.Function)
+			if !ok {
+				return false
+			}
+			if strings.HasPrefix(callee.Name(), "verif_arrayof[") && len(x.Call.Args) == 1 {
+				if st, ok := x.Call.Args[0].Type().Underlying().(*types.Slice); ok {
+					tags[eng.pseudoTag("array:"+typeKey(st.Elem()))] = true
+					return true
+				}
+				return false
+			}
+			if inModule(callee) {
+				return eng.staticTags(callee, depth+1, tags)
+			}
+			return false
+		}
+		return false
+	}
+	for _, b := range fn.Blocks {
+		for _, ins := range b.Instrs {
+			if r, ok := ins.(*ssa.Return); ok {
+				if len(r.Results) != 1 || !value(r.Results[0], 0) {
+					return false
+				}
+			}
+		}
+	}
+	return true
+}
+
+// specUsesQuant: does the specification function (or one it calls) contain a quantifier?
+func (eng *Engine) specUsesQuant(f *ssa.Function, depth int) bool {
+	if eng.specQuant == nil {
+		eng.specQuant = map[*ssa.Function]bool{}
+	}
+	if v, ok := eng.specQuant[f]; ok {
+		return v
+	}
+	eng.specQuant[f] = false
+	res := false
+	var scan func(fn *ssa.Function, d int)
+	scan = func(fn *ssa.Function, d int) {
+		if res || d > 8 {
+			return
+		}
+		for _, b := range fn.Blocks {
+			for _, ins := range b.Instrs {
+				c, ok := ins.(ssa.CallInstruction)
+				if !ok {
+					continue
+				}
+				if callee, ok := c.Common().Value.(*ssa.Function); ok {
+					n := callee.Name()
+					if n == "verif_forall" || n == "verif_exists" || strings.HasPrefix(n, "verif_all[") {
+						res = true
+						return
+					}
+					if inModule(callee) && (strings.HasPrefix(n, "spec_") || strings.HasPrefix(n, "Spec_")) && len(callee.Blocks) > 0 {
+						if eng.specUsesQuant(callee, d+1) {
+							res = true
+							return
+						}
+					}
+				}
+			}
+		}
+		for _, a := range fn.AnonFuncs {
+			scan(a, d+1)
+		}
+	}
+	scan(f, depth)
+	eng.specQuant[f] = res
+	return res
 }
